@@ -15,6 +15,7 @@ and the classification branch
 The result is `Generated/EgPredict.lean` with `regressionDrawById : Bool`; `Pmf.egRegPredictCode` follows it."""
 import ast
 import os
+from fractions import Fraction
 
 from .. import translate
 from . import normalize
@@ -37,6 +38,95 @@ def _is_self_weights(n):
 
 def _is_pred_columns(n):
     return isinstance(n, ast.Attribute) and n.attr == "columns" and isinstance(n.value, ast.Name) and n.value.id == "pred"
+
+
+PMF_LOCALS = ["pred", "t", "positive_probs"]
+
+
+def _num(node):
+    if isinstance(node, ast.Constant) and isinstance(node.value, (int, float)) and not isinstance(node.value, bool):
+        q = Fraction(repr(node.value)) if isinstance(node.value, float) else Fraction(node.value)
+        return f"({q.numerator} : Rat)" if q.denominator == 1 else f"(({q.numerator} : Rat) / {q.denominator})"
+    return None
+
+
+def _lift_pmf_predict(tree):
+    """`ExponentiatedGradient._pmf_predict`: the zero-weight mask, how `.dot` pairs columns with weights, the two
+    returned columns.  Anything else of the body is shape-checked; unknown shapes are refused."""
+    fn = None
+    for node in ast.walk(tree):
+        if isinstance(node, ast.ClassDef) and node.name == "ExponentiatedGradient":
+            for f in node.body:
+                if isinstance(f, ast.FunctionDef) and f.name == "_pmf_predict":
+                    fn = f
+    if fn is None:
+        _refuse("ExponentiatedGradient._pmf_predict not found")
+    inline_temps(fn, PMF_LOCALS)
+    fn = normalize.rename_locals(fn, PMF_LOCALS)
+    body = [n for n in fn.body if ast.unparse(n) != "check_is_fitted(self)"]
+    if len(body) != 3 or ast.unparse(body[0]) != "pred = pd.DataFrame()" or not isinstance(body[1], ast.For) \
+            or not isinstance(body[2], ast.If):
+        _refuse(f"_pmf_predict body changed: {[ast.unparse(n)[:50] for n in body]}")
+    loop, br = body[1], body[2]
+    if ast.unparse(loop.target) != "t" or ast.unparse(loop.iter) != "range(len(self._hs))" or loop.orelse or len(loop.body) != 1 \
+            or not isinstance(loop.body[0], ast.If):
+        _refuse("_pmf_predict: the loop is not `for t in range(len(self._hs)): if ..: .. else: ..`")
+    sel = loop.body[0]
+    tst = sel.test
+    if not (isinstance(tst, ast.Compare) and len(tst.ops) == 1 and isinstance(tst.ops[0], (ast.Eq, ast.NotEq))
+            and ast.unparse(tst.left) == "self.weights_[t]" and _num(tst.comparators[0]) is not None):
+        _refuse(f"_pmf_predict: mask test {ast.unparse(tst)!r}")
+
+    def col(stmts):
+        if len(stmts) != 1 or not isinstance(stmts[0], ast.Assign) or ast.unparse(stmts[0].targets[0]) != "pred[t]":
+            _refuse(f"_pmf_predict: column store {[ast.unparse(n) for n in stmts]}")
+        v = ast.unparse(stmts[0].value)
+        if v == "np.zeros(len(X))":
+            return "(0 : Rat)"
+        if v == "np.ones(len(X))":
+            return "(1 : Rat)"
+        if v in ("np.asarray(self._hs[t](X))", "self._hs[t](X)", "np.array(self._hs[t](X))"):
+            return "pred"
+        _refuse(f"_pmf_predict: column value {v!r}")
+    yes, no = col(sel.body), col(sel.orelse)
+    if isinstance(tst.ops[0], ast.NotEq):
+        yes, no = no, yes
+    column = f"(if w = {_num(tst.comparators[0])} then {yes} else {no})"
+    # classification / regression
+    if ast.unparse(br.test) != "isinstance(self.constraints, ClassificationMoment)" or \
+            [ast.unparse(n) for n in br.orelse] != ["return pred"] or len(br.body) != 2:
+        _refuse("_pmf_predict: classification / regression branch changed")
+    pp, ret = br.body
+    if not (isinstance(pp, ast.Assign) and ast.unparse(pp.targets[0]) == "positive_probs" and isinstance(ret, ast.Return)):
+        _refuse("_pmf_predict: classification branch changed")
+    dv = pp.value
+    if not (isinstance(dv, ast.Call) and isinstance(dv.func, ast.Attribute) and dv.func.attr == "to_frame" and not dv.args
+            and not dv.keywords):
+        _refuse(f"positive_probs = {ast.unparse(dv)}")
+    dot = ast.unparse(dv.func.value)
+    by_id = {"pred[self.weights_.index].dot(self.weights_)": True, "pred.dot(self.weights_)": True,
+             "pred.loc[:, self.weights_.index].dot(self.weights_)": True,
+             "pred.values.dot(self.weights_.values)": False, "pred.dot(self.weights_.values)": False,
+             "np.dot(pred.values, self.weights_.values)": False, "pred.values @ self.weights_.values": False}.get(dot)
+    if by_id is None:
+        _refuse(f"_pmf_predict: mixture expression {dot!r}")
+    rv = ret.value
+    if not (isinstance(rv, ast.Call) and ast.unparse(rv.func) == "np.concatenate" and len(rv.args) == 1
+            and isinstance(rv.args[0], (ast.Tuple, ast.List)) and len(rv.args[0].elts) == 2
+            and [(k.arg, ast.unparse(k.value)) for k in rv.keywords] == [("axis", "1")]):
+        _refuse(f"_pmf_predict returns {ast.unparse(rv)}")
+
+    def arith(n):
+        if isinstance(n, ast.Name) and n.id == "positive_probs":
+            return "p"
+        if _num(n) is not None:
+            return _num(n)
+        if isinstance(n, ast.BinOp) and isinstance(n.op, (ast.Add, ast.Sub, ast.Mult)):
+            sym = {ast.Add: "+", ast.Sub: "-", ast.Mult: "*"}[type(n.op)]
+            return f"({arith(n.left)} {sym} {arith(n.right)})"
+        _refuse(f"_pmf_predict: returned column {ast.unparse(n)!r}")
+    c0, c1 = (arith(e) for e in rv.args[0].elts)
+    return {"column": column, "by_id": by_id, "dot_src": dot, "col0": c0, "col1": c1, "cols_src": f"np.concatenate(({ast.unparse(rv.args[0].elts[0])}, {ast.unparse(rv.args[0].elts[1])}), axis=1)"}
 
 
 @translate.lifter
@@ -63,9 +153,36 @@ def lift_egpredict(repo):
               and ast.unparse(n.test) == "isinstance(self.constraints, ClassificationMoment)"]
     if len(branch) != 1 or predict.body[-1] is not branch[0]:
         _refuse("predict does not end with the classification / regression branch")
-    if [ast.unparse(n) for n in branch[0].body] != ["positive_probs = self._pmf_predict(X)[:, 1]",
-                                                    "return (positive_probs >= random_state.rand(len(positive_probs))) * 1"]:
-        _refuse(f"classification branch changed: {[ast.unparse(n) for n in branch[0].body]}")
+    cb = branch[0].body
+    if len(cb) != 2 or not isinstance(cb[0], ast.Assign) or ast.unparse(cb[0].targets[0]) != "positive_probs" \
+            or not isinstance(cb[1], ast.Return):
+        _refuse(f"classification branch changed: {[ast.unparse(n) for n in cb]}")
+    pv = cb[0].value
+    if not (isinstance(pv, ast.Subscript) and ast.unparse(pv.value) == "self._pmf_predict(X)" and isinstance(pv.slice, ast.Tuple)
+            and len(pv.slice.elts) == 2 and ast.unparse(pv.slice.elts[0]) == ":" and isinstance(pv.slice.elts[1], ast.Constant)
+            and pv.slice.elts[1].value in (0, 1, -1, -2) and not isinstance(pv.slice.elts[1].value, bool)):
+        _refuse(f"positive_probs = {ast.unparse(pv)}")
+    pos_col = {0: "c0", 1: "c1", -1: "c1", -2: "c0"}[pv.slice.elts[1].value]
+    rv = cb[1].value
+    scale, cmp_ = None, None
+    if isinstance(rv, ast.BinOp) and isinstance(rv.op, ast.Mult):
+        for a, b in ((rv.left, rv.right), (rv.right, rv.left)):
+            if isinstance(b, ast.Constant) and isinstance(b.value, int) and not isinstance(b.value, bool) and isinstance(a, ast.Compare):
+                scale, cmp_ = b.value, a
+    if cmp_ is None or len(cmp_.ops) != 1 or scale is None or scale < 0:
+        _refuse(f"classification draw is not `(<probs> <cmp> <uniforms>) * <n>`: {ast.unparse(rv)}")
+    RAND = "random_state.rand(len(positive_probs))"
+    ops = {ast.GtE: "≥", ast.Gt: ">", ast.LtE: "≤", ast.Lt: "<"}
+    mirror = {ast.GtE: ast.LtE, ast.Gt: ast.Lt, ast.LtE: ast.GtE, ast.Lt: ast.Gt}
+    lft, op, rgt = ast.unparse(cmp_.left), type(cmp_.ops[0]), ast.unparse(cmp_.comparators[0])
+    if op not in ops:
+        _refuse(f"comparison operator of the classification draw: {ast.unparse(cmp_)}")
+    if (lft, rgt) == (RAND, "positive_probs"):
+        op = mirror[op]
+    elif (lft, rgt) != ("positive_probs", RAND):
+        _refuse(f"classification draw compares {lft!r} with {rgt!r} (one uniform number per row expected)")
+    draw_term = f"decide (p {ops[op]} u)"
+    pmf_terms = _lift_pmf_predict(tree)
     reg = branch[0].orelse
     loops = [n for n in reg if isinstance(n, ast.For)]
     if len(loops) != 1 or ast.unparse(loops[0].target) != "i" or ast.unparse(loops[0].iter) != "range(pred.shape[0])" \
@@ -120,16 +237,6 @@ def lift_egpredict(repo):
         by_id = True
     else:
         raise translate.Untranslatable(f"{REL}: unsupported p= expression in predict: {ast.unparse(p)}")
-    # classification branch: (positive_probs >= random_state.rand(len(positive_probs))) * 1
-    cmp_ok = False
-    for n in ast.walk(predict):
-        if (isinstance(n, ast.Compare) and len(n.ops) == 1 and isinstance(n.ops[0], ast.GtE)
-                and isinstance(n.left, ast.Name) and n.left.id == "positive_probs"
-                and isinstance(n.comparators[0], ast.Call) and isinstance(n.comparators[0].func, ast.Attribute)
-                and n.comparators[0].func.attr == "rand"):
-            cmp_ok = True
-    if not cmp_ok:
-        raise translate.Untranslatable(f"{REL}: classification branch is not `positive_probs >= random_state.rand(...)`")
     content = (
         "/-\nGENERATED by harness/lifters/egpredict.py from " + REL + " — do not edit.\n"
         "`regressionDrawById` says whether `predict` hands `RandomState.choice` the weights re-ordered to the\n"
@@ -137,6 +244,21 @@ def lift_egpredict(repo):
         f"source expression: p={ast.unparse(p)}\n-/\n"
         "namespace EgPredict\n\n"
         f"def regressionDrawById : Bool := {'true' if by_id else 'false'}\n\n"
+        "/-- `_pmf_predict`, column `t` of `pred`: `if self.weights_[t] == 0: pred[t] = np.zeros(len(X)) else: pred[t] = "
+        "np.asarray(self._hs[t](X))` (w = `weights_[t]`, pred = that predictor's output on the row) -/\n"
+        f"def egColumn (w pred : Rat) : Rat := {pmf_terms['column']}\n"
+        f"/-- `{pmf_terms['dot_src']}`: true = the columns of `pred` are paired with the entries of `weights_` BY PREDICTOR ID "
+        "(`weights_.index` need not be `0..T-1` in order), false = by position -/\n"
+        f"def dotById : Bool := {'true' if pmf_terms['by_id'] else 'false'}\n"
+        f"/-- the two returned columns: `{pmf_terms['cols_src']}` -/\n"
+        f"def col0 (p : Rat) : Rat := {pmf_terms['col0']}\n"
+        f"def col1 (p : Rat) : Rat := {pmf_terms['col1']}\n"
+        f"/-- `predict`: `{ast.unparse(cb[0])}` -/\n"
+        f"def positiveCol (c0 c1 : Rat) : Rat := {pos_col}\n"
+        f"/-- `predict`: `{ast.unparse(cb[1])}` (u = the row's uniform draw) -/\n"
+        f"def drawsOne (p u : Rat) : Bool := {draw_term}\n"
+        f"def labelScale : Nat := {scale}\n\n"
         "end EgPredict\n"
     )
-    return "EgPredict.lean", content, {"p_expr": ast.unparse(p), "by_id": by_id, "source": os.path.join(repo, REL)}
+    return "EgPredict.lean", content, {"p_expr": ast.unparse(p), "by_id": by_id, "source": os.path.join(repo, REL),
+                                       "pmf": pmf_terms, "positive_col": pos_col, "draw": draw_term, "scale": scale}
